@@ -40,8 +40,8 @@ ASSUMPTIONS = [
     "violations are attributed to the client when its DATA-phase stream differs from the reference dot-stuffing "
     "(per read chunk), otherwise to the server; the verdict itself only looks at the server side",
 ]
-MIN = {"quick": {"evaluations": 40000, "nontrivial": 15000, "outcomes": 4},
-       "thorough": {"evaluations": 200000, "nontrivial": 80000, "outcomes": 4}}
+MIN = {"quick": {"evaluations": 40000, "nontrivial": 25000, "outcomes": 3},
+       "thorough": {"evaluations": 580000, "nontrivial": 420000, "outcomes": 3}}
 
 LINES = [b".", b"..", b".a", b"a", b"", b"a.b", b"h:v", b"a."]
 RCVD = b"Received: by verif"
@@ -453,6 +453,13 @@ def run_shard(shard, tier, seed):
                         dotstart = True
                 if dotstart:
                     st.nt(("chunk", server_kind, body, chunks))
+                    st.outcome("dot-at-chunk-boundary")
+                if body.startswith(b"."):
+                    st.outcome("body-starts-with-dot")
+                if not body:
+                    st.outcome("empty-body")
+                if b"\n." in body:
+                    st.outcome("dot-line-inside-body")
                 st.outcome("delivered-intact" if not bad else "violating")
                 for sig, detail in bad:
                     st.outcome(sig)
